@@ -113,6 +113,15 @@ class RandomOracle:
                 return Ans("value", self.fresh(), dur=d)
             if info.get("result_classifier") and rng.random() < 0.5:
                 return Ans("value", self.fresh(), dur=d)
+            if kind == "op":
+                # sometimes the operation re-raises the very exception object it raised before (a
+                # latched / cached error): same token => same Python object (Env caches op exceptions)
+                last = getattr(self, "_last_op_exc", None)
+                if last is not None and rng.random() < 0.12:
+                    return Ans("raise", last, dur=d)
+                tok = f"ordinary:{self.fresh()}:{self._klass()}"
+                self._last_op_exc = tok
+                return Ans("raise", tok, dur=d)
             return Ans("raise", f"ordinary:{self.fresh()}:{self._klass()}", dur=d)
         if kind in ("classify", "resultClassify"):
             d = self._dur(info, False)
